@@ -49,7 +49,11 @@ var neighbourhoods = []nb{
 	{"&amp;lt;", "&lt;", "&#38;#60;", "&#60;"},
 }
 
-var sinks = []string{"text", "vtext", "attr", "bound", "vbind", "class", "style", "loop", "loopattr", "loopchild", "incstatic", "incbound", "incattr", "slotprop", "layout", "layoutattr", "ifself", "elseself"}
+// "in:<tag>" sinks place the value in the text of a special element (RCDATA textarea/title,
+// pre, option, table cell, button, heading, ...): the matching end tag in the value must stay text.
+var containerTags = []string{"textarea", "title", "pre", "option", "td", "li", "button", "h1", "a", "label", "code", "summary"}
+
+var sinks = []string{"in:textarea", "in:title", "in:pre", "in:option", "in:td", "in:li", "in:button", "in:h1", "in:a", "in:label", "in:code", "in:summary", "text", "vtext", "attr", "bound", "vbind", "class", "style", "loop", "loopattr", "loopchild", "incstatic", "incbound", "incattr", "slotprop", "layout", "layoutattr", "ifself", "elseself"}
 var encs = []string{"bare", "if", "else", "tplif", "nested", "loopchild", "elseif"}
 
 // tokens: the hostile alphabet. The first coreN are enumerated exhaustively.
@@ -57,6 +61,7 @@ var tokens = []string{
 	"<", ">", "&", `"`, "'", ";", "{{ secret }}", "</p>", "&lt;", "&#", "=", " ", "{{", "}}",
 	"&amp;", "&quot;", "&#x3c;", "&#60;", "{{secret|upper}}", "</script>", "<script>", "<!--", "-->", "<b x=y>",
 	` :x="secret"`, ` v-html="secret"`, "x", "/", "\\", "\n", "&gt;", "&apos;", "<img src=x onerror=a>", "{{ secret + 1 }}", "]]>", "<![CDATA[",
+	"</textarea>", "</title>", "</pre>", "</option>", "</select>", "</td>", "</table>", "</li>", "</button>", "</h1>", "</a>", "</div>", "</style>", "</template>", "<p>", "<a href=x>", "<td>", "<plaintext>",
 }
 
 const coreN = 14
@@ -89,6 +94,23 @@ type program struct {
 
 func build(c Case) program {
 	n := neighbourhoods[c.Nb%len(neighbourhoods)]
+	if strings.HasPrefix(c.Sink, "in:") {
+		tag := strings.TrimPrefix(c.Sink, "in:")
+		open, close := "<"+tag+` data-m="s">`, "</"+tag+">"
+		switch tag {
+		case "option":
+			open, close = `<select><option data-m="s">`, `</option></select>`
+		case "td":
+			open, close = `<table><tbody><tr><td data-m="s">`, `</td></tr></tbody></table>`
+		case "li":
+			open, close = `<ul><li data-m="s">`, `</li></ul>`
+		case "a":
+			open = `<a href="/x" data-m="s">`
+		case "summary":
+			open, close = `<details><summary data-m="s">`, `</summary></details>`
+		}
+		return program{tpl: wrap(c.Enc, open+n.LS+`{{ v }}`+n.RS+close), useNb: true}
+	}
 	switch c.Sink {
 	case "text":
 		return program{tpl: wrap(c.Enc, `<p data-m="s">`+n.LS+`{{ v }}`+n.RS+`</p>`), useNb: true}
@@ -128,7 +150,7 @@ func build(c Case) program {
 	case "incattr":
 		return program{files: map[string]string{
 			"page.vuego": wrap(c.Enc, `<template include="c.vuego" :p="v"></template>`),
-			"c.vuego":    `<div><p data-m="s" title="`+n.LS+`{{ p }}`+n.RS+`">x</p></div>`,
+			"c.vuego":    `<div><p data-m="s" title="` + n.LS + `{{ p }}` + n.RS + `">x</p></div>`,
 		}, attr: "title", useNb: true}
 	case "slotprop":
 		return program{files: map[string]string{
@@ -317,6 +339,9 @@ func TestProp(t *testing.T) {
 	gen("", 0)
 	for _, tk := range tokens[coreN:] {
 		values = append(values, tk)
+	}
+	for _, tag := range containerTags {
+		values = append(values, "</"+tag+"><img src=x onerror=a>", "a</"+tag+"><script>alert(1)</script>")
 	}
 	i := 0
 	ok := true
